@@ -22,12 +22,15 @@ use veryl_path::sim::{self, Verdict};
 const NREPOS: usize = 4;
 /// Static dependencies of the dependency repositories: lib0 -> lib2, lib1 -> lib2 (diamond), lib3 -> lib1.
 const INNER: [&[(usize, &str)]; NREPOS] = [&[(2, "0.1")], &[(2, "0")], &[], &[(1, "0.1")]];
-const REQS: [&str; 9] = ["0.1.0", "0.1", "0", "0.2", "1", "=0.1.0", ">=0.1.1, <1.0.0", "*", "2"];
+const REQS: [&str; 9] = ["0.1.0", "0.1", "0", "0", "*", "=0.1.0", ">=0.1.1, <1.0.0", "*", "1"];
 
 #[derive(Clone, Debug, Serialize, Deserialize, PartialEq)]
 pub enum Step {
     /// bump (0 patch, 1 minor, 2 major) and publish a new release of a repository
     Publish { repo: usize, bump: u8 },
+    /// publish a maintenance release of an older line after a newer release exists
+    /// (Veryl.pub is then not in ascending version order)
+    Backport { repo: usize },
     /// set / add root dependency `name` on repo with a requirement (alias when name != lib<repo>)
     SetDep { name: String, repo: usize, req: String },
     RemoveDep { name: String },
@@ -88,17 +91,38 @@ fn on_thread<T: Send + 'static>(cache: PathBuf, f: impl FnOnce() -> T + Send + '
         .map_err(|p| p.downcast_ref::<String>().cloned().or_else(|| p.downcast_ref::<&str>().map(|s| s.to_string())).unwrap_or("panic".into()))
 }
 
-fn create_repo(root: &Path, i: usize) -> Result<(), String> {
+fn repo_toml(root: &Path, i: usize, version: &str) -> String {
     let repo_dir = |k: usize| root.join("repos").join(format!("lib{k}"));
-    let dir = repo_dir(i);
-    std::fs::create_dir_all(&dir).map_err(|e| e.to_string())?;
-    let mut toml = format!("[project]\nname = \"lib{i}\"\nversion = \"0.1.0\"\n\n[publish]\nbump_commit = true\npublish_commit = true\n");
+    let mut toml = format!("[project]\nname = \"lib{i}\"\nversion = \"{version}\"\n\n[publish]\nbump_commit = true\npublish_commit = true\n");
     if !INNER[i].is_empty() {
         toml.push_str("\n[dependencies]\n");
         for (r, req) in INNER[i] {
             toml.push_str(&format!("lib{r} = {{git = \"file://{}\", version = \"{req}\"}}\n", repo_dir(*r).to_string_lossy()));
         }
     }
+    toml
+}
+
+/// Checks `version` into the repository's Veryl.toml; publishes it when asked.
+fn set_version(root: &Path, i: usize, version: &str, publish_it: bool) -> Result<(), String> {
+    let dir = root.join("repos").join(format!("lib{i}"));
+    let toml_path = dir.join("Veryl.toml");
+    fsutil::write_file(&toml_path, repo_toml(root, i, version).as_bytes());
+    let git = Git::open(&dir).map_err(|e| e.to_string())?;
+    git.add(&toml_path).map_err(|e| e.to_string())?;
+    git.commit(&format!("Set version {version}")).map_err(|e| e.to_string())?;
+    if publish_it {
+        let mut md = Metadata::load(&toml_path).map_err(|e| e.to_string())?;
+        md.publish().map_err(|e| format!("publish {version}: {e}"))?;
+    }
+    Ok(())
+}
+
+fn create_repo(root: &Path, i: usize) -> Result<(), String> {
+    let repo_dir = |k: usize| root.join("repos").join(format!("lib{k}"));
+    let dir = repo_dir(i);
+    std::fs::create_dir_all(&dir).map_err(|e| e.to_string())?;
+    let toml = repo_toml(root, i, "0.1.0");
     let toml_path = dir.join("Veryl.toml");
     fsutil::write_file(&toml_path, toml.as_bytes());
     let ign = dir.join(".gitignore");
@@ -288,11 +312,39 @@ pub fn run(sc: &Scenario) -> Outcome {
                 let b2 = *b;
                 match on_thread(w.cache(), move || publish(&dir, b2)) {
                     Ok(Ok(())) => {
-                        let last = w.versions[*repo].last().unwrap().clone();
+                        let last = w.versions[*repo].iter().max().unwrap().clone();
                         w.versions[*repo].push(bump(&last, *b));
                         counters.inc("step.publish");
                     }
                     Ok(Err(e)) | Err(e) => return Outcome { violation: None, counters, harness_error: Some(format!("publish: {e}")) },
+                }
+            }
+            Step::Backport { repo } => {
+                // a release line older than the newest one gets a new patch release
+                let mut max = w.versions[*repo].iter().max().unwrap().clone();
+                let mut older: Option<Version> = w.versions[*repo].iter().filter(|v| (v.major, v.minor) != (max.major, max.minor)).max().cloned();
+                if older.is_none() {
+                    // only one release line so far: open a newer one first
+                    let dir = w.repo_dir(*repo);
+                    match on_thread(w.cache(), move || publish(&dir, 1)) {
+                        Ok(Ok(())) => {
+                            older = Some(max.clone());
+                            max = bump(&max, 1);
+                            w.versions[*repo].push(max.clone());
+                        }
+                        Ok(Err(e)) | Err(e) => return Outcome { violation: None, counters, harness_error: Some(format!("publish: {e}")) },
+                    }
+                }
+                let Some(line) = older else { continue };
+                let patch = w.versions[*repo].iter().filter(|v| (v.major, v.minor) == (line.major, line.minor)).map(|v| v.patch).max().unwrap() + 1;
+                let bp = Version::new(line.major, line.minor, patch);
+                let (root, r, bps, maxs) = (w.scratch.path.clone(), *repo, bp.to_string(), max.to_string());
+                match on_thread(w.cache(), move || set_version(&root, r, &bps, true).and_then(|_| set_version(&root, r, &maxs, false))) {
+                    Ok(Ok(())) => {
+                        w.versions[*repo].push(bp);
+                        counters.inc("step.publish_backport");
+                    }
+                    Ok(Err(e)) | Err(e) => return Outcome { violation: None, counters, harness_error: Some(format!("backport: {e}")) },
                 }
             }
             Step::SetDep { name, repo, req } => {
@@ -399,11 +451,17 @@ pub fn gen_scenario(seed: u64) -> Scenario {
             initial.push((format!("lib{repo}"), repo, rng.pick(&REQS[..4]).to_string()));
         }
     }
-    let mut steps = vec![Step::Build];
+    let mut steps = vec![];
+    // often start from a history that already has two release lines
+    if rng.chance(1, 2) {
+        steps.push(Step::Publish { repo: rng.below(NREPOS), bump: 1 + rng.below(2) as u8 });
+    }
+    steps.push(Step::Build);
     let n = 3 + rng.below(8);
     for _ in 0..n {
         let s = match rng.below(100) {
-            0..=29 => Step::Publish { repo: rng.below(NREPOS), bump: rng.below(3) as u8 },
+            0..=17 => Step::Publish { repo: rng.below(NREPOS), bump: rng.below(3) as u8 },
+            18..=29 => Step::Backport { repo: rng.below(NREPOS) },
             30..=44 => {
                 let repo = rng.below(NREPOS);
                 let name = if rng.chance(1, 4) { format!("alias{}", rng.below(2)) } else { format!("lib{repo}") };
@@ -415,7 +473,13 @@ pub fn gen_scenario(seed: u64) -> Scenario {
             85..=89 => Step::DeleteUserCache,
             _ => Step::BuildCrash { gate: rng.below(3), prefix: if rng.chance(1, 2) { Some(rng.below(40) as u64) } else { None } },
         };
+        let was_backport = matches!(s, Step::Backport { .. });
         steps.push(s);
+        if was_backport && rng.chance(2, 3) {
+            // resolve afresh while Veryl.pub is out of order
+            steps.push(if rng.chance(1, 2) { Step::ForceUpdate } else { Step::DeleteUserCache });
+            steps.push(Step::Build);
+        }
     }
     steps.push(Step::Build);
     Scenario { initial_deps: initial, steps }
@@ -452,7 +516,7 @@ fn main() {
     }
     let tier = args.get(1).cloned().unwrap_or_else(simcore::evidence::tier);
     let seed = verif_seed();
-    let n: usize = std::env::var("VERIF_N").ok().and_then(|x| x.parse().ok()).unwrap_or(if tier == "thorough" { 1200 } else { 48 });
+    let n: usize = std::env::var("VERIF_N").ok().and_then(|x| x.parse().ok()).unwrap_or(if tier == "thorough" { 1200 } else { 60 });
     let start = std::time::Instant::now();
     println!("depsim C31 tier={tier} VERIF_SEED={seed} histories={n}");
     let jobs = simcore::pool::workers();
@@ -526,7 +590,7 @@ fn main() {
             exit = exit.max(2);
         }
     }
-    for p in ["step.publish", "step.build", "step.force_update", "resolve.kept_locked_or_older_than_latest", "resolve.transitive_or_multi_version", "fault.crash_in_lockfile_save"] {
+    for p in ["step.publish", "step.publish_backport", "step.build", "step.force_update", "resolve.kept_locked_or_older_than_latest", "resolve.transitive_or_multi_version", "fault.crash_in_lockfile_save"] {
         if counters.get(p) == 0 {
             eprintln!("harness error: reach probe {p} stayed at zero");
             exit = exit.max(2);
@@ -545,7 +609,7 @@ fn main() {
         level: "exploration".into(),
         evaluations: n as u64,
         distinct_nontrivial: distinct.len() as u64,
-        rule: "four dependency repositories (lib0->lib2, lib1->lib2 diamond, lib3->lib1) with evolving release lists x seeded histories of 5-12 steps (publish patch/minor/major, set/alias/remove a root dependency with one of 9 requirement strings, build, forced update, delete user cache, crash at an atomic-write gate of Veryl.lock); after every build/update the lock table must equal the reference resolver (locked release if it still matches, else highest published match), names are distinct, save->load->save is byte-stable, a second update reports no modification; a crash leaves Veryl.lock byte-identical. distinct_nontrivial = distinct histories in which a locked (non-latest) release was kept or a transitive / second version was resolved".into(),
+        rule: "four dependency repositories (lib0->lib2, lib1->lib2 diamond, lib3->lib1) with evolving release lists x seeded histories of 5-12 steps (publish patch/minor/major, publish a backport of an older line, set/alias/remove a root dependency with one of 9 requirement strings, build, forced update, delete user cache, crash at an atomic-write gate of Veryl.lock); after every build/update the lock table must equal the reference resolver (locked release if it still matches, else highest published match), names are distinct, save->load->save is byte-stable, a second update reports no modification; a crash leaves Veryl.lock byte-identical. distinct_nontrivial = distinct histories in which a locked (non-latest) release was kept or a transitive / second version was resolved".into(),
         samples,
         extra,
         assumptions: vec!["dependency declarations inside the dependency repositories are fixed at creation".into()],
